@@ -24,3 +24,48 @@ impl<'a, T: 'a> CcChain<'a, T> for std::vec::IntoIter<&'a T> {
     fn cc_chain(self, o: core::slice::Iter<'a, T>) -> (r: std::vec::IntoIter<&'a T>)
     { self.chain(o).collect::<Vec<_>>().into_iter() }
 }
+
+/// `slice.iter().rev().find_map(f)`: not used by /repo today; specified so that the variant of get_func_context in
+/// which the LAST decorator's scope wins is DECIDED (refuted) instead of undecided.  Same assumed contract as
+/// `VpSliceIterExt::vp_find_map` (prelude/iter_slice.rs), over the elements the reversed iterator still yields
+/// (vstd: `it.rev().remaining() == it.remaining().reverse()`): f's result on the FIRST of them it maps to `Some`.
+pub trait CcRevSliceIterExt<'a, T: 'a>: Sized + Iterator<Item = &'a T> {
+    fn vp_find_map<B, F: FnMut(&'a T) -> Option<B>>(self, f: F) -> (r: Option<B>)
+        requires forall|x: &'a T| #[trigger] call_requires(f, (x,));
+}
+impl<'a, T: 'a> CcRevSliceIterExt<'a, T> for core::iter::Rev<core::slice::Iter<'a, T>> {
+    #[verifier::external_body]
+    fn vp_find_map<B, F: FnMut(&'a T) -> Option<B>>(self, f: F) -> (r: Option<B>)
+        ensures ({
+            let s = self.remaining();
+            match r {
+                Some(b) => ({
+                    let i = vp_hit(s, (), f, r);
+                    0 <= i < s.len() && call_ensures(f, (s[i],), Some(b))
+                    && (forall|j: int| 0 <= j < i ==> call_ensures(f, (#[trigger] s[j],), None::<B>))
+                }),
+                None => forall|j: int| 0 <= j < s.len() ==> call_ensures(f, (#[trigger] s[j],), None::<B>),
+            }
+        }),
+    { let mut it = self; it.find_map(f) }
+}
+
+/// `slice.iter().any(f)` for an f that is only callable on the ELEMENTS (a closure that recurses into the element:
+/// its precondition is `decreases_to!(parent => element)`; vstd's `any` asks for `call_requires` on every value of
+/// the type).  Renamed to `.cc_any(`; the external body IS the call to the real method.
+/// ASSUMED: true iff f returned true on some element; false iff f returned false on every element.
+pub uninterp spec fn cc_any_hit<T, F>(s: Seq<T>, f: F) -> int;
+pub trait CcSliceIterAny<'a, T: 'a>: Sized + Iterator<Item = &'a T> {
+    fn cc_any<F: FnMut(&'a T) -> bool>(self, f: F) -> (r: bool)
+        requires forall|j: int| 0 <= j < self.remaining().len() ==> call_requires(f, (#[trigger] self.remaining()[j],));
+}
+impl<'a, T: 'a> CcSliceIterAny<'a, T> for core::slice::Iter<'a, T> {
+    #[verifier::external_body]
+    fn cc_any<F: FnMut(&'a T) -> bool>(self, f: F) -> (r: bool)
+        ensures ({
+            let s = self.remaining();
+            if r { let i = cc_any_hit(s, f); 0 <= i < s.len() && call_ensures(f, (s[i],), true) }
+            else { forall|j: int| 0 <= j < s.len() ==> call_ensures(f, (#[trigger] s[j],), false) }
+        }),
+    { let mut it = self; it.any(f) }
+}
